@@ -142,8 +142,10 @@ type provOpts struct {
 	opaque func(*ssa.Function) bool
 	// stopAt: treat this value as a root (kind ROther) and do not look through it.
 	stopAt func(ssa.Value) bool
-	// throughFields: keep RField roots even when deepFields expanded them.
-	max int
+	// throughExternal: besides recording an external call as a root, also look through its arguments
+	// (its result is assumed to be a function of them).
+	throughExternal bool
+	max             int
 }
 
 type provCtx struct {
@@ -392,6 +394,12 @@ func (c *provCtx) visitCall(tuple ssa.Value, idx int) {
 	cc := call.Common()
 	if cc.IsInvoke() {
 		c.root(Root{Kind: RCall, Val: call, Meth: cc.Method, Call: call})
+		if c.o.throughExternal {
+			c.visit(cc.Value)
+			for _, a := range cc.Args {
+				c.visit(a)
+			}
+		}
 		return
 	}
 	if b, ok := cc.Value.(*ssa.Builtin); ok {
@@ -425,6 +433,11 @@ func (c *provCtx) visitCall(tuple ssa.Value, idx int) {
 		return
 	}
 	c.root(Root{Kind: RCall, Val: call, Fn: f, Call: call})
+	if c.o.throughExternal {
+		for _, a := range cc.Args {
+			c.visit(a)
+		}
+	}
 }
 
 func (c *provCtx) bindParam(p *ssa.Parameter) bool {
